@@ -85,6 +85,11 @@ var intLits = []string{"0", "1", "2", "3", "7", "007", "0x2", "10", "1.5", ".5",
 
 // function names that only look like built-ins: they are passed through by name
 var lookalikes = []string{"ISNULL", "IsNull", "ISNOTNULL", "STRCAT", "IFF", "Iif", "TOLOWER", "ToUpper", "NOW"}
+var dialectFuncs = DialectFuncs
+
+// DialectFuncs: scalar functions of Kusto that this language does not define.
+var DialectFuncs = []string{"long", "int", "real", "double", "bool", "toint", "tolong", "todouble", "tobool", "tostring", "strlen", "substring", "bin", "floor", "round", "isempty", "isnotempty",
+	"array_length", "hash", "datetime", "ago", "min_of", "max_of", "pow", "sqrt", "log", "exp", "trim", "replace", "split", "extract", "parse_json", "startofday", "rand", "sign", "pack", "dynamic", "todatetime", "totimespan"}
 var strLits = []string{"", "a", "A", "b", "Ab", "it's", `q"t`, `b\s`, "x y", "é"}
 
 func (g *ExprGen) pickTy() Ty { return Ty(g.Rng.Intn(4)) }
@@ -224,7 +229,24 @@ func (g *ExprGen) Gen(t Ty, depth int) *E {
 			return Idx(StrLit(strLits[1+r.Intn(len(strLits)-1)], r.Intn(2) == 0), g.Gen(TInt, d))
 		}
 		n := r.Intn(3)
-		e := Call(append([]string{"fi", "fi2", "abs"}, lookalikes...)[r.Intn(3+len(lookalikes))])
+		names := append([]string{"fi", "fi2", "abs"}, lookalikes...)
+		if r.Intn(3) == 0 {
+			// functions of the dialect family this language follows: not built in
+			// here, so they are passed through by name like any other
+			names = dialectFuncs
+		}
+		e := Call(names[r.Intn(len(names))])
+		if r.Intn(4) == 0 {
+			// literal arguments (signed ones too): where a rewrite of the call would differ first
+			for i := 0; i <= n; i++ {
+				lit := Num(intLits[r.Intn(len(intLits))])
+				if r.Intn(2) == 0 {
+					lit = Un("-", lit)
+				}
+				e.Kids = append(e.Kids, lit)
+			}
+			return e
+		}
 		for i := 0; i <= n; i++ {
 			e.Kids = append(e.Kids, g.Gen(g.pickTy(), d))
 		}
